@@ -2340,6 +2340,20 @@ evhttp_get_body_length(struct evhttp_request *req)
 	content_length = evhttp_find_header(headers, "Content-Length");
 	connection = evhttp_find_header(headers, "Connection");
 
+	if (content_length != NULL) {
+		/* RFC 9112 6.3: Content-Length fields with differing values
+		 * make the message framing invalid. */
+		struct evkeyval *header;
+		TAILQ_FOREACH(header, headers, next) {
+			if (evutil_ascii_strcasecmp(header->key, "Content-Length") == 0 &&
+			    strcmp(header->value, content_length) != 0) {
+				event_debug(("%s: conflicting content lengths: %s, %s",
+					__func__, content_length, header->value));
+				return (-1);
+			}
+		}
+	}
+
 	if (content_length == NULL && connection == NULL)
 		req->ntoread = -1;
 	else if (content_length == NULL &&
